@@ -159,6 +159,16 @@ def r22_4(ctx, rep):
            "expansion must remove and add entries of both lists together")
 
 
+@SPEC.rule(
+    "R22.5",
+    "the delay-argument function returns each delayed expression with its own duration also after vector expansion: the element "
+    "DelayArguments built by _expand_vectors take <argument>.expr[I] with the multi-index I their delay state is named with",
+)
+def r22_5(ctx, rep):
+    from .c18 import delay_element_correspondence
+    delay_element_correspondence(ctx, rep, "R22.5")
+
+
 # -- seeded variants ---------------------------------------------------------
 from ._mut import delete_stmt_where, replace_in_func  # noqa: E402
 
